@@ -177,6 +177,49 @@ def _run_shard_pyopt(args):
     return r
 
 
+class NoProgress(Exception):
+    """Raised by the bounded-progress monitor from inside the library's retry loop."""
+
+
+_PROGRESS = {"on": False}
+
+
+def _install_progress_monitor():
+    """Bounded progress for the deterministic signer's retry loop, in logical steps (no clock): the library asks `rfc6979.generate_k` for the
+    next nonce candidate each time a candidate gave r = 0 or s = 0.  With a 1/n chance per candidate, more than 300 consecutive requests
+    for the same (order, key, data, extra entropy) on one thread mean the loop is not advancing; the monitor then raises NoProgress from
+    inside that request, which surfaces through the signing call to whichever oracle made it (a signer that raises on valid input).
+    The wrapper passes every call through unchanged and keeps its state per thread."""
+    if _PROGRESS["on"]:
+        return
+    _PROGRESS["on"] = True
+    import threading
+    try:
+        from ecdsa import rfc6979 as _r
+    except Exception:
+        return
+    real = _r.generate_k
+    tl = threading.local()
+
+    def generate_k(order, secexp, hash_func, data, retry_gen=0, extra_entropy=b""):
+        try:
+            # only requests made by the library's own signer are counted (the harness calls generate_k directly too)
+            key = (order, secexp, bytes(data), bytes(extra_entropy)) if sys._getframe(1).f_code.co_filename.replace(os.sep, "/").endswith("/ecdsa/keys.py") else None
+        except Exception:
+            key = None
+        if key is not None and getattr(tl, "key", None) == key:
+            tl.count += 1
+            if tl.count > 300:
+                tl.count = 0
+                raise NoProgress("bounded-progress monitor: %d consecutive nonce requests for the same key and data (last retry_gen=%r): the retry loop of the deterministic signer does not advance" % (301, retry_gen))
+        else:
+            tl.key, tl.count = key, 1
+        return real(order, secexp, hash_func, data, retry_gen, extra_entropy)
+    generate_k.__wrapped__ = real
+    generate_k.__doc__ = real.__doc__
+    _r.generate_k = generate_k
+
+
 _GUARD = {"on": False, "trips": 0}
 
 
@@ -236,6 +279,7 @@ def _run_shard(args):
         ctx.deadline = time.time() + budget
     try:
         mod = importlib.import_module("vf.props." + prop.lower())
+        _install_progress_monitor()
         mod.run(ctx, name, **kwargs)
         from vf import gen as _gen
         _gen.audit_issued(ctx)
